@@ -132,6 +132,10 @@ class Sut(object):
 
     def _check_new_pages(self, report, n, out, what):
         self.stats["reports_checked"] += 1
+        try:
+            self.last_report = (report.nb_created_pages, sorted((k, list(v)) for k, v in report.created_webentities.items()))
+        except Exception:
+            self.last_report = repr(report)
         got = getattr(report, "nb_created_pages", None)
         if got != n:
             out.append(D(["C01"], "nb_created_pages", op=what, expected=n, got=got))
@@ -142,6 +146,7 @@ class Sut(object):
         out = []
         k = op["op"]
         self.opcount[k] += 1
+        self.last_report = None
         t, m = self.t, self.m
         try:
             if k == "add_page":
@@ -175,6 +180,7 @@ class Sut(object):
                 try:
                     r = t.create_webentity(list(op["prefixes"]))
                     got_ok = True
+                    self.last_report = (r.nb_created_pages, sorted((k_, list(v)) for k_, v in r.created_webentities.items()))
                 except TraphException:
                     got_ok = False
                 self.stats["create_refused" if not ok else "create_accepted"] += 1
@@ -319,6 +325,7 @@ class Sut(object):
     def reopen(self):
         t, m = self.t, self.m
         t.close()
+        self.closed_sizes = (os.path.getsize(t.lru_trie_path), os.path.getsize(t.link_store_path))
         rules = {a: m.rules[a].pattern for a in sorted(m.flags)}
         self.t = Traph(
             folder=self.folder,
